@@ -635,6 +635,18 @@ func (x *Exec) evalCall(env *Env, e *Expr) Value {
 			sub := *env
 			sub.st = env.old
 			return x.evalExpr(&sub, e.Args[0])
+		case "fieldptr":
+			// fieldptr(p, "f"): the address of field f of the struct p points to (&p.f)
+			if len(e.Args) != 2 || e.Args[1].Kind != "str" {
+				x.fail("fieldptr needs a pointer and a field name")
+			}
+			pv, ok := x.evalExpr(env, e.Args[0]).(Ptr)
+			if !ok {
+				x.fail("fieldptr of a non-pointer")
+			}
+			np := Ptr{Base: pv.Base, Root: pv.Root, Fresh: pv.Fresh, New: pv.New}
+			np.Path = append(append([]Step{}, pv.Path...), Step{Field: e.Args[1].Name})
+			return np
 		case "aftercall":
 			// aftercall("callee@k", e): e in the heap right after the k-th call of callee in this function
 			if len(e.Args) != 2 || e.Args[0].Kind != "str" {
